@@ -179,6 +179,11 @@ def run_all(d, case, gaf_kind, gfa_kind):
 
     res, lines = idx.run_view(d, gaf, gfa, d + "/v_whole.txt")
     put("view", res, lines)
+    # the global --debug option changes what is logged, never what is written
+    r = core.cli(["view", gaf, "-o", d + "/v_dbg.txt"], debug=True)
+    put("--debug view", r, core.read_output(d + "/v_dbg.txt", "--debug view").split("\n")[:-1] if r[0] == "ok" else None)
+    r = core.cli(["stat", gaf, "--cigar", "-o", d + "/stat_dbg.txt"], debug=True)
+    put("--debug stat", r, core.read_output(d + "/stat_dbg.txt", "--debug stat") if r[0] == "ok" else None)
     res, lines = idx.run_view(d, gaf, gfa, d + "/v_fmt.txt", fmt="stable")
     put("view --format stable", res, lines)
     stable_path = d + "/stable.gaf"
